@@ -382,7 +382,11 @@ pub fn run(e: &Engine) {
         rec.class("pattern_longer_than_255_bytes");
         check_long(c, rec)
     });
-    for cls in ["depth_0", "depth_1", "depth_2", "depth_3", "depth_4", "pattern_longer_than_255_bytes", "can_match_false_observed", "will_always_match_true_observed"] {
+    for cls in ["can_match_false_observed", "will_always_match_true_observed"] {
+        // hints may legitimately be less precise
+        e.expect_class(cls, 1);
+    }
+    for cls in ["depth_0", "depth_1", "depth_2", "depth_3", "depth_4", "pattern_longer_than_255_bytes"] {
         e.require_class(cls, 1);
     }
 }
